@@ -205,6 +205,13 @@ pub struct SeededScheduler {
     over: Cfg,
     rng: Rng,
     stick: u64,
+    /// PCT mode (Burckhardt et al.): 0 = random walk with stickiness; d >= 1 = strict
+    /// priorities with d - 1 priority change points at random steps
+    pct_depth: u64,
+    pct_prio: Vec<u64>,
+    pct_changes: Vec<u64>,
+    pct_step: u64,
+    pct_low: u64,
     replay: Option<Trace>,
     replay_cfg: Cfg,
     pos_d: usize,
@@ -218,10 +225,10 @@ pub struct SeededScheduler {
 
 impl SeededScheduler {
     pub fn generate(def: &'static ThreadScenDef, seed: u64, first_run: u64, end_run: u64, over: Cfg, shared: Arc<Mutex<Shared>>) -> Self {
-        SeededScheduler { shared, def, seed, next_run: first_run, end_run, over, rng: Rng::new(0), stick: 0, replay: None, replay_cfg: Cfg::new(), pos_d: 0, pos_r: 0, started: false, fp: Hasher64::default(), idx_file: None, oplog: None }
+        SeededScheduler { shared, def, seed, next_run: first_run, end_run, over, rng: Rng::new(0), stick: 0, pct_depth: 0, pct_prio: vec![], pct_changes: vec![], pct_step: 0, pct_low: 0, replay: None, replay_cfg: Cfg::new(), pos_d: 0, pos_r: 0, started: false, fp: Hasher64::default(), idx_file: None, oplog: None }
     }
     pub fn replay(def: &'static ThreadScenDef, cfg: Cfg, trace: Trace, shared: Arc<Mutex<Shared>>) -> Self {
-        SeededScheduler { shared, def, seed: 0, next_run: 0, end_run: 0, over: Cfg::new(), rng: Rng::new(0), stick: 0, replay: Some(trace), replay_cfg: cfg, pos_d: 0, pos_r: 0, started: false, fp: Hasher64::default(), idx_file: None, oplog: None }
+        SeededScheduler { shared, def, seed: 0, next_run: 0, end_run: 0, over: Cfg::new(), rng: Rng::new(0x7a11_bac4), stick: 0, pct_depth: 0, pct_prio: vec![], pct_changes: vec![], pct_step: 0, pct_low: 0, replay: Some(trace), replay_cfg: cfg, pos_d: 0, pos_r: 0, started: false, fp: Hasher64::default(), idx_file: None, oplog: None }
     }
     fn finish_previous(&mut self) {
         if self.started {
@@ -278,7 +285,22 @@ impl Scheduler for SeededScheduler {
         let (cfg, rng) = draw_run_cfg(self.def, self.seed, run, &self.over);
         self.rng = rng;
         self.stick = cfg_get(&cfg, "stick", 50) as u64;
+        self.pct_depth = cfg_get(&cfg, "pct_depth", 0) as u64;
+        self.pct_prio.clear();
+        self.pct_changes.clear();
+        self.pct_step = 0;
+        self.pct_low = 0;
+        let s_cfg_tmp = cfg.clone();
         let mut s = self.shared.lock().unwrap();
+        if self.pct_depth > 0 {
+            // expected length: part of the run's configuration (a running mean of the batch
+            // would make a run depend on which runs its worker executed before)
+            let est = cfg_get(&s_cfg_tmp, "pct_len", 200).max(8) as u64;
+            for _ in 1..self.pct_depth {
+                let at = self.rng.below(est);
+                self.pct_changes.push(at);
+            }
+        }
         s.cfg = cfg;
         s.run_index = run;
         s.trace = Trace::default();
@@ -298,9 +320,29 @@ impl Scheduler for SeededScheduler {
                 self.pos_d += 1;
                 match want {
                     Some(w) if ids.contains(&w) => w,
-                    // tolerant replay: the minimiser edits schedules
-                    _ => ids[0],
+                    // tolerant replay: the minimiser edits schedules, and a trace recorded on one
+                    // tree may be replayed on another. The fallback must be fair (a fixed
+                    // choice can spin on one polling thread forever): fixed-seed random.
+                    _ => ids[self.rng.below(ids.len() as u64) as usize],
                 }
+            }
+            None if self.pct_depth > 0 => {
+                for id in &ids {
+                    while self.pct_prio.len() <= *id {
+                        // initial priorities: random, all above the "lowered" range
+                        let p = (1 << 32) + (self.rng.next() >> 32);
+                        self.pct_prio.push(p);
+                    }
+                }
+                if let Some(c) = cur {
+                    if c < self.pct_prio.len() && (self.pct_changes.contains(&self.pct_step) || _is_yielding) {
+                        // change point (or a spinning task): the running task drops below everyone
+                        self.pct_low += 1;
+                        self.pct_prio[c] = (1 << 31) - self.pct_low;
+                    }
+                }
+                self.pct_step += 1;
+                *ids.iter().max_by_key(|id| self.pct_prio[**id]).unwrap()
             }
             None => {
                 let stay = cur.filter(|c| ids.contains(c));
